@@ -10,6 +10,7 @@ func init() {
 	// Local tier: CertTrace (no model sets: RUP chain by unit propagation in TLA+, models evaluated).
 	register(&core.Check{
 		ID:          "C06",
+		Amplify:     amplifyAPI,
 		Designs:     cdclDesigns(true),
 		TraceModule: "APITrace",
 		Budget:      0,
@@ -29,8 +30,8 @@ func init() {
 				res = append(res, c)
 			}
 			// local tier
-			for i := 0; i < env.Pick(24, 300); i++ {
-				nv := 20 + r.Intn(env.Pick(21, 41))
+			for i := 0; i < env.Pick(160, 1500); i++ {
+				nv := 12 + r.Intn(env.Pick(24, 49))
 				clauses := gen.RandKSAT(r, nv, int(4.26*float64(nv)), 3)
 				cfg := gen.Cfg(true, []int{0, 4, 8}[r.Intn(3)], []int{0, 5}[r.Intn(2)], false, false, false)
 				c := gen.APICase("slicenb", nv, true, gen.ClauseCtors(clauses), false, nil, cfg, []gen.M{gen.Op("solve")})
